@@ -1045,3 +1045,32 @@ pub fn boxed<S: Strategy + 'static>(s: S) -> BoxedStrategy<S::Value> {
 
 pub type CaseResult = Result<(), TestCaseError>;
 pub type ShrinkErr<T> = TestError<T>;
+
+// ------------------------------------------------------------------------------------------
+// coverage-guided entry: a fuzz target decodes the fuzzer's bytes into a case of a check and runs the check's own oracle
+
+/// Run one explicit case (targets that decode the fuzzer's bytes themselves).
+pub fn fuzz_case<C: CheckDef>(id: &'static str, case: &C::Case) -> i32 {
+    install_panic_hook();
+    set_current_property(id);
+    fuzz_verdict::<C>(id, case, run_guarded::<C>(case, false))
+}
+
+fn fuzz_verdict<C: CheckDef>(id: &'static str, case: &C::Case, out: Outcome) -> i32 {
+    if let Verdict::Violation { signature, detail } = &out.verdict {
+        if signature == "harness-panic" {
+            let path = write_replay::<C>(id, case, None, signature, detail);
+            eprintln!("ENGINE-ERROR: harness panic (case saved to {}): {detail}", path.display());
+            return 2;
+        }
+        if findings().known(id, signature).is_some() {
+            return 0;
+        }
+        let path = write_replay::<C>(id, case, None, signature, detail);
+        println!("VIOLATION property={id} replay={}", path.display());
+        println!("  signature: {signature}");
+        println!("  {detail}");
+        return 1;
+    }
+    0
+}
